@@ -27,7 +27,7 @@ Definition j_get := @get json jshape (fun d => d) B HFUEL DEPTH.
 Inductive qsrc := QDoc | QMatch (i : nat).
 
 Inductive qcmd :=
-| QIter (s : qsrc) (p : jpath) (vals tr : bool)     (* it = find(p, s) / find_matches(p, s) *)
+| QIter (s : qsrc) (p : jpath) (vals tr push : bool) (* it = find(p, s) / find_matches(p, s); push: results join the match list *)
 | QNext (it : nat)                                   (* next(it); a Match result is appended to the match list *)
 | QDrain (it cap extra : nat)                        (* next(it) until it raises or cap results, then extra more *)
 | QGetMatch (s : qsrc) (p : jpath) (must tr : bool)  (* a Match result is appended to the match list *)
@@ -39,7 +39,7 @@ Inductive qcmd :=
 
 Record qcase := { q_doc : json; q_cmds : list qcmd }.
 
-Record qiter := { i_src : jsource; i_path : jpath; i_vals : bool; i_tr : jtrace; i_st : jstate }.
+Record qiter := { i_src : jsource; i_path : jpath; i_vals : bool; i_push : bool; i_tr : jtrace; i_st : jstate }.
 Record qenv := { e_iters : list qiter; e_matches : list jtm }.
 
 Definition tr_of (b : bool) : jtrace := if b then Some None else None.
@@ -71,9 +71,9 @@ Definition skip : otree := ON "skip" [].
 
 Definition next_iter (it : qiter) (ms : list jtm) : otree * bool * qiter * list jtm :=
   let '(o, z', es) := j_next (i_src it) (i_path it) (i_tr it) (i_st it) in
-  let it' := {| i_src := i_src it; i_path := i_path it; i_vals := i_vals it; i_tr := i_tr it; i_st := z' |} in
+  let it' := {| i_src := i_src it; i_path := i_path it; i_vals := i_vals it; i_push := i_push it; i_tr := i_tr it; i_st := z' |} in
   let ms' := match o with
-             | OResult m => if i_vals it then ms else ms ++ [m]
+             | OResult m => if i_vals it || negb (i_push it) then ms else ms ++ [m]
              | _ => ms
              end in
   (ON "next" [ooutcome (i_vals it) o; oevents es], match o with OResult _ => true | _ => false end, it', ms').
@@ -96,12 +96,12 @@ Fixpoint drain_iter (cap extra : nat) (it : qiter) (ms : list jtm) : list otree 
 
 Definition run_cmd (doc : json) (e : qenv) (c : qcmd) : otree * qenv :=
   match c with
-  | QIter s p vals tr =>
+  | QIter s p vals tr push =>
       match resolve doc e s with
       | None => (skip, e)
       | Some src =>
           (ON "iter" [],
-           {| e_iters := e_iters e ++ [{| i_src := src; i_path := p; i_vals := vals; i_tr := tr_of tr; i_st := init_state |}];
+           {| e_iters := e_iters e ++ [{| i_src := src; i_path := p; i_vals := vals; i_push := push; i_tr := tr_of tr; i_st := init_state |}];
               e_matches := e_matches e |})
       end
   | QNext k =>
@@ -109,9 +109,9 @@ Definition run_cmd (doc : json) (e : qenv) (c : qcmd) : otree * qenv :=
       | None => (skip, e)
       | Some it =>
           let '(o, z', es) := j_next (i_src it) (i_path it) (i_tr it) (i_st it) in
-          let it' := {| i_src := i_src it; i_path := i_path it; i_vals := i_vals it; i_tr := i_tr it; i_st := z' |} in
+          let it' := {| i_src := i_src it; i_path := i_path it; i_vals := i_vals it; i_push := i_push it; i_tr := i_tr it; i_st := z' |} in
           let ms := match o with
-                    | OResult m => if i_vals it then e_matches e else e_matches e ++ [m]
+                    | OResult m => if i_vals it || negb (i_push it) then e_matches e else e_matches e ++ [m]
                     | _ => e_matches e
                     end in
           (ON "next" [ooutcome (i_vals it) o; oevents es],
